@@ -22,6 +22,34 @@ class CollectiveMismatch(RuntimeError):
     pass
 
 
+@contextlib.contextmanager
+def safe_gc():
+    """Run real torchsnapshot code with the cyclic GC switched off and collect afterwards.
+
+    When a pipeline fails, torchsnapshot abandons pending asyncio tasks.  If the collector happens to finalise such a
+    coroutine while some thread is inside ThreadPoolExecutor.submit (which holds a non-reentrant lock), the coroutine's
+    `async with aiofiles.open(...)` exit handler calls run_in_executor -> submit again and the thread deadlocks on
+    itself.  That is an artefact of finaliser timing, not of the property under test, so the harness defers collection
+    to a point where no executor lock is held."""
+    import gc
+    was = gc.isenabled()
+    gc.disable()
+    try:
+        yield
+    finally:
+        if was:
+            gc.enable()
+        import sys
+        hook = sys.unraisablehook
+        sys.unraisablehook = lambda *a: None      # abandoned coroutines complain when finalised on a closed loop
+        try:
+            gc.collect()
+        except Exception:  # noqa
+            pass
+        finally:
+            sys.unraisablehook = hook
+
+
 class InjectedFailure(OSError):
     pass
 
@@ -103,6 +131,7 @@ class World:
         st, res = self._results[gen]
         if st != "ok":
             raise CollectiveMismatch(f"collective mismatch: {res}")
+        self.event("collective_done", coll=kind)
         return res
 
     # ------------------------------------------------------------------ patching
@@ -203,7 +232,7 @@ class World:
             return body
         for r in range(self.W):
             self.sched.spawn(f"r{r}", mk(r), tags={"rank": r})
-        with self.patched():
+        with self.patched(), safe_gc():
             try:
                 self.sched.run()
             except Deadlock as d:
